@@ -72,9 +72,9 @@ fn props() -> Vec<Prop> {
         run: c04::run_case,
     }, Prop {
         id: "C08",
-        rule: "int-grid: every integer pair in a window (exhaustive) through rx_int_range vs the Lean model's printed pattern, a sub-sample through the whole engine; int-random: bounds around powers of ten up to 10^18 with inclusive/exclusive/missing bounds; dec-random: decimal bounds with up to three fractional digits; mult-random: multipleOf combined with bounds; for each schema every literal of a grid in and around the bounds (0-4 fractional digits, trailing zeros, shorter forms) is accepted iff its exact value satisfies the keywords; distinct non-trivial = distinct schemas that compiled",
-        quick_cases: 8,
-        thorough_cases: 60,
+        rule: "int-grid: every integer pair in a window (exhaustive) through rx_int_range vs the Lean model's printed pattern, a sub-sample through the whole engine; int-random: bounds around powers of ten up to 10^18 with inclusive/exclusive/missing bounds; dec-random: decimal bounds with up to three fractional digits; dec-near: both bounds from a small lattice (equal integer parts, integer-valued and zero bounds, shared fraction prefixes, all inclusive/exclusive combinations); mult-random: multipleOf combined with bounds; for each schema every literal of a grid in and around the bounds (0-4 fractional digits, trailing zeros, shorter forms) is accepted iff its exact value satisfies the keywords; distinct non-trivial = distinct schemas that compiled",
+        quick_cases: 10,
+        thorough_cases: 75,
         gen: c08::gen_case,
         run: c08::run_case,
     }, Prop {
